@@ -172,6 +172,27 @@ def search(pid, ob, repo, scratch):
     return None
 
 
+def standin(pid, ops, repo, scratch):
+    """Bounded stand-in used ONLY when a unit is undecided (a construct outside the verifier's dialect): run the replay
+    grid of each op against the real code. Returns the first disagreement (a witness dict) or None. Decides nothing when
+    it finds nothing: the check then stays undecided (exit 2)."""
+    exe = build(repo, scratch)
+    cases = 0
+    for op in ops:
+        env = dict(os.environ)
+        env['REPLAY_POLICY'] = 'whole' if pid == 'C15' else 'fragment'
+        p = subprocess.run([exe, 'grid', op, '3'], capture_output=True, text=True, timeout=900, env=env)
+        m = re.search(r'cases=(\d+)', p.stdout)
+        cases += int(m.group(1)) if m else 0
+        w = _parse_witness(p.stdout)
+        if w:
+            w['replayed'] = f'bounded stand-in: real code of {repo} on the replay grid of {op}; first disagreement with the executable mirror of the specification'
+            w['grid_summary'] = p.stdout.split('\n')[0]
+            w['cases'] = cases
+            return w, cases
+    return None, cases
+
+
 def run_input(exe, op, args):
     cmd = [exe, 'run', op] + [f'{k}={v}' for k, v in args.items()]
     p = subprocess.run(cmd, capture_output=True, text=True, timeout=120)
